@@ -6,11 +6,13 @@ import (
 )
 
 type chanCore struct {
-	id     int
-	label  string
-	cap    int
-	buf    []interface{}
-	closed bool
+	id         int
+	label      string
+	cap        int
+	buf        []interface{}
+	closed     bool
+	bufClock   []vclock
+	closeClock vclock
 }
 
 func (c *chanCore) name() string {
